@@ -44,6 +44,13 @@ DoXorAssign  == NoIter /\ \E o \in AllBits : XorAssign(o, Max2(Len(bits), Len(o)
 DoShlAssign  == NoIter /\ \E k \in Positions : \E ns \in {Len(bits) + k, IF Len(bits) = 0 THEN 0 ELSE Len(bits) + k} :
                              ShlAssign(k, ns) /\ act' = AP("ShlAssign", k, FALSE, ns)
 DoShrAssign  == NoIter /\ \E k \in Positions : ShrAssign(k) /\ act' = AP("ShrAssign", k, FALSE, 0)
+\* the object itself as operand: x &= x and x |= x leave x as it is, x ^= x leaves all-zero bits of the same size
+\* (what the binary operators give for equal operands)
+DoSelfAssign == /\ NoIter
+                /\ \/ AndAssign(bits, Len(bits)) /\ act' = AO("AndAssign", bits, Len(bits), "self")
+                   \/ OrAssign(bits, Len(bits))  /\ act' = AO("OrAssign", bits, Len(bits), "self")
+                   \/ XorAssign(bits, Len(bits)) /\ act' = AO("XorAssign", bits, Len(bits), "self")
+DoSelfBinary == NoIter /\ \E nm \in {"And", "Or", "Xor", "Eq"} : Const /\ act' = AO(nm, bits, 0, "self")
 \* non-modifying operations (self loops; their results are checked when the recorded execution is validated)
 DoBinary     == NoIter /\ \E o \in AllBits, nm \in {"And", "Or", "Xor", "Eq"} : Const /\ act' = AO(nm, o, 0, "")
 DoShift      == NoIter /\ \E k \in Positions, nm \in {"Shl", "Shr"} : Const /\ act' = AP(nm, k, FALSE, 0)
@@ -60,7 +67,7 @@ DoIterDrop   == itk # "none" /\ IterDrop /\ act' = A0("IterDrop")
 
 MCNext == \/ DoAssign \/ DoCtorSize \/ DoSetAll \/ DoResetAll \/ DoFlipAll \/ DoSetBit \/ DoResetBit \/ DoFlipBit
           \/ DoIndexWrite \/ DoIndexRead \/ DoResize \/ DoAndAssign \/ DoOrAssign \/ DoXorAssign \/ DoShlAssign \/ DoShrAssign
-          \/ DoBinary \/ DoShift \/ DoNot \/ DoTest \/ DoIterate \/ DoIterBegin \/ DoObserve
+          \/ DoSelfAssign \/ DoSelfBinary \/ DoBinary \/ DoShift \/ DoNot \/ DoTest \/ DoIterate \/ DoIterBegin \/ DoObserve
           \/ DoIterNext \/ DoIterPrev \/ DoIterDrop
 MCSpec == MCInit /\ [][MCNext]_<<vars, act>>
 
